@@ -9,7 +9,17 @@ use rayon::prelude::*;
 use serde_json::{json, Value};
 use std::collections::BTreeMap;
 
-pub const FAKE_SAT: &str = "/verif/target/harness/release/fake_sat";
+/// path of the stand-in external SAT program (built next to the driver)
+pub fn fake_sat() -> &'static str {
+    static P: std::sync::OnceLock<String> = std::sync::OnceLock::new();
+    P.get_or_init(|| {
+        let exe = std::env::current_exe().ok().and_then(|e| e.parent().map(|d| d.join("fake_sat")));
+        match exe {
+            Some(p) if p.exists() => p.display().to_string(),
+            _ => format!("{}/target/harness/release/fake_sat", crate::report::verif_dir()),
+        }
+    })
+}
 
 #[derive(Clone, Debug, PartialEq, Eq, Hash)]
 pub enum SatOp {
@@ -82,7 +92,7 @@ impl BackendKind {
 fn make(b: BackendKind) -> Box<dyn SatSolver> {
     match b {
         BackendKind::Cadical => Box::<CadicalSolver>::default(),
-        BackendKind::External => Box::new(ExternalSatSolver::new(FAKE_SAT.to_string(), vec![])),
+        BackendKind::External => Box::new(ExternalSatSolver::new(fake_sat().to_string(), vec![])),
     }
 }
 
@@ -287,8 +297,8 @@ fn explore(b: BackendKind, depth: usize, max_solves: usize) -> Acc {
 pub fn run(tier: Tier) -> i32 {
     let mut rep = Report::new("C15", tier);
     let thorough = tier == Tier::Thorough;
-    if !std::path::Path::new(FAKE_SAT).exists() {
-        rep.machinery_errors.push(format!("{} not built", FAKE_SAT));
+    if !std::path::Path::new(fake_sat()).exists() {
+        rep.machinery_errors.push(format!("{} not built", fake_sat()));
         return rep.finish();
     }
     let plans = [
